@@ -625,7 +625,7 @@ class HammingReward(Rewards):
 
     def __call__(self, action: Sequence[Action]) -> float:
         argmax = self._argmax
-        comparable,shape = extract_shape(action,argmax[0],True)
+        comparable,shape = extract_shape(action,argmax[0] if len(argmax) else None,True)
 
         n_intersect = 0
 
